@@ -77,13 +77,11 @@ class H:
 
 def sh(cmd, timeout=None, cwd=None, env=None, mem_gb=None):
     """Run a command, return (rc, stdout, stderr, wall, peak_rss_kb, timed_out)."""
-    def pre():
-        os.setsid()
-        if mem_gb:
-            lim = mem_gb * (1 << 30)
-            resource.setrlimit(resource.RLIMIT_AS, (lim, lim))
+    if mem_gb:
+        cmd = ["prlimit", "--as=%d" % (mem_gb * (1 << 30))] + list(cmd)
     t0 = time.time()
-    p = subprocess.Popen(cmd, stdout=subprocess.PIPE, stderr=subprocess.PIPE, cwd=cwd, env=env, preexec_fn=pre)
+    # NB: no preexec_fn (not fork-safe with threads); start_new_session gives us a killable group
+    p = subprocess.Popen(cmd, stdout=subprocess.PIPE, stderr=subprocess.PIPE, cwd=cwd, env=env, start_new_session=True)
     timed_out = False
     try:
         out, err = p.communicate(timeout=timeout)
@@ -186,6 +184,38 @@ class Ctx:
             raise BuildError("ar failed: " + err[-500:])
         return lib
 
+    # -- many units: compile in parallel, link into one goto object, remove stubbed bodies once
+    def lib_obj(self, units, stubs, udefs=()):
+        units = tuple(units)
+        stubs = tuple(sorted(stubs))
+        udefs = tuple(sorted(udefs))
+        key = ("lib", units, stubs, udefs)
+        with self.lock:
+            fut = self.unit_futs.get(key)
+            if fut is None:
+                fut = _Lazy(lambda: self._build_lib(units, stubs, udefs))
+                self.unit_futs[key] = fut
+        return fut.get()
+
+    def _build_lib(self, units, stubs, udefs):
+        with ThreadPoolExecutor(max_workers=NCPU) as ex:
+            raws = list(ex.map(lambda u: self._build_unit(u, (), udefs), units))
+        tag = hashlib.md5(("|".join(units) + "#" + ",".join(stubs) + "#" + ",".join(udefs)).encode()).hexdigest()[:12]
+        linked = os.path.join(self.scratch, "lib_" + tag + "_raw.o")
+        rc, out, err, *_ = sh(["goto-cc"] + raws + ["-o", linked], timeout=900)
+        if rc != 0:
+            raise BuildError("goto-cc link of library units failed:\n" + (out + err)[-3000:])
+        if not stubs:
+            return linked
+        obj = os.path.join(self.scratch, "lib_" + tag + ".o")
+        cmd = ["goto-instrument"]
+        for s_ in stubs:
+            cmd += ["--remove-function-body", s_]
+        rc, out, err, *_ = sh(cmd + [linked, obj], timeout=900)
+        if rc != 0:
+            raise BuildError("goto-instrument failed for library: " + (out + err)[-2000:])
+        return obj
+
     # -- goto objects of repo units, with the given function bodies removed
     def unit_obj(self, unit, stubs, udefs=()):
         stubs = tuple(sorted(stubs))
@@ -197,6 +227,29 @@ class Ctx:
                 fut = _Lazy(lambda: self._build_unit(unit, stubs, udefs))
                 self.unit_futs[key] = fut
         return fut.get()
+
+    def _encoding_patch(self, unit, srcf):
+        """Source-level adaptation of the solver encoding (regenerated from /repo on every run):
+        psf_binheader_readf() reads its integer count arguments with va_arg (argptr, size_t) although
+        every caller passes an int; CBMC does not model the x86-64 register promotion, so the upper 32
+        bits would be unconstrained. The CBMC build reads them as int (the function truncates them to
+        int anyway). Native replay uses the unmodified file."""
+        if unit != "common":
+            return srcf
+        txt = open(srcf).read()
+        a = txt.find("psf_binheader_readf (SF_PRIVATE *psf, char const *format, ...)")
+        b = txt.find("} /* psf_binheader_readf */")
+        if a < 0 or b < 0:
+            return srcf
+        body = txt[a:b].replace("va_arg (argptr, size_t)", "(size_t) va_arg (argptr, int)")
+        out = os.path.join(self.scratch, "common_va_int.c")
+        with self.lock:
+            if not os.path.isfile(out):
+                with open(out + ".tmp", "w") as f:
+                    f.write('#line 1 "%s"\n' % srcf)
+                    f.write(txt[:a] + body + txt[b:])
+                os.replace(out + ".tmp", out)
+        return out
 
     def _build_unit(self, unit, stubs, udefs=()):
         srcf = os.path.join(SRC, unit + ".c")
@@ -213,7 +266,8 @@ class Ctx:
             sub = os.path.dirname(unit)
             if sub:
                 inc = ["-I" + os.path.join(SRC, sub)]
-            rc, out, err, *_ = sh(["goto-cc", "-DVERIF_CBMC=1", "-U__SSE2__"] + self.cc_base + inc + ["-D" + d for d in udefs] + ["-c", srcf, "-o", raw], timeout=600)
+            srcf = self._encoding_patch(unit, srcf)
+            rc, out, err, *_ = sh(["goto-cc", "-DVERIF_CBMC=1", "-DLIBSNDFILE_VERIF_PROMOTE_VARARGS=1", "-U__SSE2__"] + self.cc_base + inc + ["-D" + d for d in udefs] + ["-c", srcf, "-o", raw], timeout=600)
             if rc != 0:
                 raise BuildError("goto-cc failed for %s:\n%s" % (unit, (out + err)[-3000:]))
             open(raw + ".done", "w").close()
@@ -276,11 +330,16 @@ def build_harness(ctx, h, extra_defines=()):
         srcs.append(os.path.join(VERIF, "env", e + ".c"))
     # hook defines (LIBSNDFILE_VERIF_*) must reach the linked repo units as well
     udefs = ["%s=%s" % (k, v) for k, v in h.defines.items() if k.startswith("LIBSNDFILE_VERIF")]
-    objs = [ctx.unit_obj(u, h.stubs, udefs) for u in h.link]
+    if len(h.link) > 6:
+        objs = [ctx.lib_obj(h.link, h.stubs, udefs)]
+    else:
+        objs = [ctx.unit_obj(u, h.stubs, udefs) for u in h.link]
     defs = ["-D%s=%s" % (k, v) if v is not None else "-D%s" % k for k, v in h.defines.items()]
     defs += ["-D" + d for d in extra_defines]
+    if os.environ.get("VERIF_EXTRA_DEFINES"):      # debugging aid only
+        defs += ["-D" + d for d in os.environ["VERIF_EXTRA_DEFINES"].split(",")]
     incs = ["-I" + os.path.join(SRC, i) for i in h.incs]
-    cmd = ["goto-cc", "-DVERIF_CBMC=1", "-U__SSE2__"] + ctx.cc_base + incs + defs + srcs + objs + ["-o", out]
+    cmd = ["goto-cc", "-DVERIF_CBMC=1", "-DLIBSNDFILE_VERIF_PROMOTE_VARARGS=1", "-U__SSE2__"] + ctx.cc_base + incs + defs + srcs + objs + ["-o", out]
     rc, o, e, wall, *_ = sh(cmd, timeout=900)
     if rc != 0:
         raise BuildError("goto-cc failed for harness %s:\n%s" % (h.name, (o + e)[-4000:]))
@@ -367,8 +426,13 @@ def is_artefact(r):
     return False
 
 
+def is_harness_bound(r):
+    """assertions of the environment models that only say 'the harness' stated bound was exceeded'"""
+    return "(harness bound)" in r.get("description", "")
+
+
 def is_unwind(r):
-    return "unwinding assertion" in r.get("description", "") or ".unwind." in r.get("property", "") or "recursion unwinding" in r.get("description", "")
+    return "unwinding assertion" in r.get("description", "") or ".unwind." in r.get("property", "") or "recursion unwinding" in r.get("description", "") or is_harness_bound(r)
 
 
 def extract_values(trace):
@@ -574,7 +638,7 @@ def run_one(ctx, h, known_keys, replay_root):
                                "reproduced": ok, "info": info, "values": [list(v) for v in vals]}, f, indent=1)
                 if is_unwind(p):
                     # bound exceeded: violation only if the native run hangs (DESIGN 3.6)
-                    if ok and info.get("kind") == "hang":
+                    if ok and info.get("kind") == "hang" and not is_harness_bound(p):
                         confirmed = True
                         entry["class"] = "hang"
                     else:
